@@ -272,3 +272,39 @@ c.loop(('list(arg_vals)', None), [Clause('processed_keys_filtered', lambda x, k:
         x.env.arg_vals.val[s_] == KWD(x.a.fn.e).val[s_]),
     patterns=[x.env.arg_vals.dom[s_]]))])
 register(c)
+
+
+# ---- _format_value (C06, C07): a literal or None, never an exception --------------------------------
+c = Contract('config.py::parse_value', ['C06'], kind='assumed')
+c.param('value', KVal)
+c.result = KVal
+c.modifies = set(world.STATE) - {'HELD_OPERATIVE_CONFIG_LOCK', 'HELD_SINGLETONS_LOCK'}
+c.may_raise_other = True
+c.assumptions.append('parse_value(text) may do anything a parse can do (dynamic registration may '
+                     'register configurables) and may raise anything')
+register(c)
+
+c = Contract('config.py::_format_value', ['C06', 'C07'])
+c.param('value', KVal)
+c.result = KOpt(KStr)
+c.modifies = set(world.STATE) - {'HELD_OPERATIVE_CONFIG_LOCK', 'HELD_SINGLETONS_LOCK'}
+c.val_ops_may_raise = True           # `==` on an arbitrary value may raise
+c.ensure('the_repr_or_nothing', lambda x: z3.Or(
+    x.result.is_none,
+    x.result.inner.e == sym.ufun('repr_of', sym.Val, sym.Str)(x.a.value.e)))
+
+
+def _reparsed(x):
+  ev = [e for e in x.trace if e.get('call') == 'config.py::parse_value' and 'result' in e]
+  return ev[0]['result'] if len(ev) == 1 else None
+
+
+c.ensure('a_literal_is_returned_only_if_parsing_it_back_gave_an_equal_value', lambda x: z3.Implies(
+    z3.Not(x.result.is_none),
+    z3.BoolVal(False) if _reparsed(x) is None else
+    sym.ufun('val_eq', sym.Val, sym.Val, sym.BoolS)(_reparsed(x).e, x.a.value.e)))
+c.raise_case('not_an_Exception', 'BaseException', ensures=[
+    ('only_exceptions_outside_the_Exception_hierarchy_escape', lambda x: z3.Not(
+        sym.exc_sub(x.exc.cls, sym.exc_const('Exception'))))])
+c.raises_only_listed = True
+register(c)
